@@ -88,7 +88,7 @@ func (b *Buffer[K, V]) Add(n ReadBufItem[K, V]) *PolicyBuffers[K, V] {
 	size := tail - head
 	if size >= capacity {
 		// full buffer
-		return nil
+		return b.drainFull()
 	}
 	if b.tail.CompareAndSwap(tail, tail+1) {
 		// success
@@ -124,6 +124,41 @@ func (b *Buffer[K, V]) Add(n ReadBufItem[K, V]) *PolicyBuffers[K, V] {
 
 	// failed
 	return nil
+}
+
+// drainFull is called by a producer that finds the ring full. Normally the producer that
+// filled the last slot has taken the returned buffer and drains the ring. But it loses that
+// race when the previous consumer has advanced head and has not called Free yet: then the
+// ring is full, the returned buffer becomes free a moment later, and nobody is left to drain -
+// every later Add would give up at the size test and the stripe would stay dead for the life
+// of the cache. So a producer that finds the ring full drains it if the buffer is free.
+func (b *Buffer[K, V]) drainFull() *PolicyBuffers[K, V] {
+	if atomic.LoadPointer(&b.returned) == nil {
+		// a consumer holds the buffer
+		return nil
+	}
+	if !atomic.CompareAndSwapPointer(&b.returned, b.policyBuffers, nil) {
+		return nil
+	}
+	// head is only advanced by the holder of the returned buffer, so it is stable now
+	head := b.head.Load()
+	if b.tail.Load()-head < capacity {
+		// somebody else drained the ring in the meantime
+		atomic.StorePointer(&b.returned, b.policyBuffers)
+		return nil
+	}
+	pb := (*PolicyBuffers[K, V])(b.policyBuffers)
+	for i := 0; i < capacity; i++ {
+		index := int(head & mask)
+		v := atomic.LoadPointer(&b.buffer[index])
+		if v != nil {
+			pb.Returned = append(pb.Returned, *castToPointer[K, V](v))
+			atomic.StorePointer(&b.buffer[index], nil)
+		}
+		head++
+	}
+	b.head.Store(head)
+	return pb
 }
 
 // Load all items in buffer, used in test only to update policy proactive proactively
